@@ -241,6 +241,7 @@ void error_handler (const char *err) {
       /* we are leaving the error handler for good: do not treat later errors as nested */
       in_error = 0;
       in_mudlib_error_handler = 0;
+      clear_error_state ();
 
       if (current_error_context)
         longjmp (current_error_context->context, 1);
@@ -277,6 +278,12 @@ void error_handler (const char *err) {
     }
 
   in_error = 0;
+
+  /* The error goes to a recovery point that is not a catch (backend loop, call_out,
+   * protected apply ...): the limit-error state has done its job. Such recovery points
+   * do not all pop their context, so clear it here or the next catch() would refuse an
+   * ordinary error. */
+  clear_error_state ();
 
   if (current_error_context)
     longjmp (current_error_context->context, 1);
